@@ -26,6 +26,8 @@
 //! registry.invalidate_by_tag("user_data");
 //! ```
 
+#[cfg(cachelito_verif)]
+use crate::verif_seams::sim_std_det as std;
 use parking_lot::RwLock;
 use std::collections::{HashMap, HashSet};
 use std::sync::Arc;
